@@ -1,7 +1,7 @@
 """Cooperative thread scheduler + preemption-bounded exhaustive schedule exploration (CHESS-style).
 
 Each harness thread runs under sys.settrace: line events inside the traced package directory, opcode events inside
-the named critical functions.  At every event the thread parks on its own semaphore; the controller decides who
+the named critical functions (pkg_dir may be a tuple of path prefixes: single files restrict the line events).  At every event the thread parks on its own semaphore; the controller decides who
 runs next.  Default choice = keep running the current thread; switching away from a still-enabled thread costs one
 preemption.  explore() enumerates every schedule with at most `bound` preemptions."""
 import os
